@@ -177,6 +177,16 @@ CLAIMED["C12"] = dict(
     technique="TLA+ decision model (TLC) + exhaustive configuration matrix on real TLS stacks validated by TLC",
     ref="DESIGN.md section 6 C12")
 
+CLAIMED["C18"] = dict(
+    text="TLC explores the `ipputil print` session design (MC_Util: optional state check, printer answers, Print-Job "
+         "reply, exit status; termination) over all command-line shapes and printer scripts and prints each; the real "
+         "ipputil binary built from /repo is run as a child process against the loopback server for each (a seeded "
+         "stride in the quick tier) and TLC validates every request it sent (IppOps.Build of the arguments, options "
+         "typed by their text, document octets intact, nothing submitted to a stopped/blocked printer) and its exit status.",
+    note="Responses come from the library's encoder (judged by C03); one binary run per session; quick tier samples ~1500 of ~14k sessions.",
+    technique="TLA+ model checking of the CLI session (TLC) + real process runs + TLC trace validation",
+    ref="DESIGN.md section 6 C18")
+
 NOT_YET = "check not built yet in this round (planned, see DESIGN.md section 6)"
 
 
